@@ -294,14 +294,15 @@ unfold them); what they do need is checked here against the values the source ha
 /-- the inline storage exists -/
 theorem gen_inline_storage : 0 < SPACE := gen_space_pos
 
-/-- `String(int)`, `String(unsigned)`, `String(bool)` ask for at least the longest text they can write -/
-theorem gen_number_storage : 11 ≤ Gen.Str.intAlloc ∧ 10 ≤ Gen.Str.uintAlloc ∧ 5 ≤ Gen.Str.boolAlloc := gen_number_allocs
+/-- the storage `String(int)`, `String(unsigned)`, `String(bool)` obtain holds the longest text they can write + NUL -/
+theorem gen_number_storage : 11 < (alloc Gen.Str.intAlloc).cap ∧ 10 < (alloc Gen.Str.uintAlloc).cap ∧
+    5 < (alloc Gen.Str.boolAlloc).cap := gen_number_allocs
 
 /-- `String(Long)`, `String(ULong)`: values routed to the inline storage have at most `ASL_STR_SPACE-1` characters,
-    the others get at least 20 -/
+    (which the storage obtained for them holds), the others get room for 20 -/
 theorem gen_long_storage : Gen.Str.longInlineBelow ≤ 1000000000000000 ∧ Gen.Str.longInlineAbove ≤ 100000000000000 ∧
-    15 ≤ SPACE - 1 ∧ 20 ≤ Gen.Str.longHeapAlloc ∧ Gen.Str.ulongInlineBelow ≤ 1000000000000000 ∧
-    20 ≤ Gen.Str.ulongHeapAlloc := gen_long_allocs
+    15 < (alloc (SPACE - 1)).cap ∧ 20 < (alloc Gen.Str.longHeapAlloc).cap ∧ Gen.Str.ulongInlineBelow ≤ 1000000000000000 ∧
+    20 < (alloc Gen.Str.ulongHeapAlloc).cap := gen_long_allocs
 
 /-- the printf loops allow at least one retry, and `String::f`'s first attempt fits its stack buffer -/
 theorem gen_printf_loops : 2 ≤ Gen.Str.fmtTries ∧ 2 ≤ Gen.Str.fTries ∧ Gen.Str.fSpace ≤ Gen.Str.fStack ∧ 0 < Gen.Str.fSpace :=
